@@ -28,12 +28,17 @@ def ansOf (n : String) : List Nat :=
   let i := nameIdx n
   if i % 2 == 1 then [i + 1, 256 + i + 1] else [i + 1]
 
-def dnsResolver (n : String) (sel : Nat) : Option (List Nat) := if sel == 0 then some (ansOf n) else none
+/-- what one resolver call answers: selector 0 = the answer of the name, 1 = the call fails, k ≥ 2 = variant k of the answer
+    (the same host at another time: third octet + 2k), so that two calls for one name can be told apart -/
+def ansVar (n : String) (sel : Nat) : List Nat := if sel ≥ 2 then (ansOf n).map (· + 512 * sel) else ansOf n
+
+def dnsResolver (n : String) (sel : Nat) : Option (List Nat) := if sel == 1 then none else some (ansVar n sel)
 
 def parseOp (s : String) : Option Dns.Op :=
   match s.toList with
   | ['-', c] => some (.del (String.singleton c))
   | [c, '!'] => some (.lookup (String.singleton c) 1)
+  | [c, d] => if '2' ≤ d ∧ d ≤ '9' then some (.lookup (String.singleton c) (d.toNat - '0'.toNat)) else none
   | [c] => some (.lookup (String.singleton c) 0)
   | _ => none
 
@@ -113,8 +118,14 @@ def specMove (cap : Int) (regime : String) (todos : List (List Dns.Op)) (st : Sp
       let g := (rg.drop 1).toString.toNat?.getD 99
       let cur := opAt todos g ((st.idx[g]?).getD 0)
       let st' : SpecSt := ⟨bump st.idx g, if hm == "m" then n :: st.stored else st.stored⟩
-      if cur != some (.lookup n 0) && cur != some (.lookup n 1) then (st', some "answer-for-another-request")
-      else if ad != showAddrs (ansOf n) then (st', some "wrong-host-addresses")
+      let curSel : Option Nat := match cur with
+        | some (.lookup n' sel) => if n' == n then some sel else none
+        | _ => none
+      if curSel.isNone then (st', some "answer-for-another-request")
+      else if !((List.range 10).any (fun k => k != 1 && ad == showAddrs (ansVar n k))) then (st', some "wrong-host-addresses")
+      -- every stored entry is past its expiry at once in regime n: a lookup that went to the resolver can only be
+      -- answered with what ITS OWN call returned — anything else is an entry served past its expiry
+      else if hm == "m" && regime == "n" && curSel != some 1 && ad != showAddrs (ansVar n (curSel.getD 0)) then (st', some "stale-entry-served")
       else if hm == "h" && regime == "n" then (st', some "stale-entry-served")
       else if hm == "h" && regime == "s" && !st.stored.contains n then (st', some "stale-entry-served")
       else if hm == "h" && !keys.contains n then (st', some "hit-without-entry")
